@@ -42,7 +42,7 @@ func zzValue(tag string) any {
 	case 3:
 		return vBool(tag + "_b")
 	default: // integer in the interoperable range, as a JSON parser delivers it (float64)
-		i := vIntRange(tag+"_i", minSafeInteger, maxSafeInteger)
+		i := vIntRange(tag+"_i", minSafeInteger, maxSafeInteger) // the property quantifies over the interoperable range only (beyond it client and server do disagree: the client omits the header, the server demands it — outside the property as stated)
 		return float64(i)
 	}
 }
